@@ -6,7 +6,10 @@ Parts (one shard kind each):
           alphabet, default configuration x shuffle permutation family
   three   sequences of length 3 on at least one side (sub-alphabet)
   dev1/2  one / two deviations from the default configuration
-  grid    2 x 2 scan-line x scan-position grids against grids and sequences
+  grid    scan-line x scan-position grids (2 x 2, 2 x 3, 3 x 2; time on the
+          scan-line dimension or being it) against grids and sequences
+  wide    max_distance 2000 km: the chord is inside, the great circle is not
+  long    max_interval 36 h and 48 h with points 12, 36 and 48 h apart
   history explicit-state BFS over call histories on one reused Collocator
           (c04_history.py)
   large   temporally pre-binned path: cores inside 1001 x 1000 filler points
@@ -27,49 +30,76 @@ RULE = (
     "Point alphabet of 15 points = 10 positions (3-point meridian cluster "
     "spaced 0.6 max_distance, 2 points across the date line, the pole with "
     "two longitudes, a far point, NaN latitude, NaN longitude) x seconds "
-    "{-0.25, 0, 6, 9.25, 10, 12, 1000} with max_distance 5 km, max_interval 10 s (|dt| = "
-    "10 s occurs and must be excluded). Datasets carry an id variable and "
-    "unique unsorted labels (7, 3, 11) on the point dimension. base: every "
-    "ordered pair of sequences (with repetition) of length 1..2 over the "
-    "alphabet (quick: over 9 of the 15 points), default configuration, "
-    "numpy.random.shuffle replaced by each member of {identity, reversal, "
-    "transpositions (0 i)} (quick: reversal). three (thorough): every pair "
-    "of sequences of length 1..3 over 5 points with a 3-sequence on at least "
-    "one side x the 3 family members. dev1: every single deviation from the "
-    "default configuration - time itself as the dimension of the primary / "
-    "of the secondary, thresholds as unit strings / timedelta / 10.5 s, "
-    "five start/end windows (between points, closed on points, excluding "
-    "everything, start only, end only; datetime objects or strings), "
-    "primary and secondary swapped, leaf_size 1, magnitude_factor 1, "
-    "bin_factor 2 and 0.5 - on all pairs of sequences of length 1..2 over 8 "
-    "points (quick: length 1 over all 15 points, plus the identity "
-    "shuffle); dev2 (thorough): every two simultaneous deviations on "
-    "sequences of length 1..2 over 4 points. grid: 2 x 2 grids made of two "
-    "of 6 scan lines (quick 3) against every grid x 5 family members and x 5 "
-    "windows, and against sequences in both roles. " + c04_history.RULE +
-    " " + c04_large.RULE + " One evaluation = one collocate() call compared "
-    "with the brute force; all evaluations are distinct inputs by "
-    "construction (history calls: distinct call prefixes). Non-trivial = "
-    "the brute force expects at least one pair.")
+    "{-0.25, 0, 6, 9.25, 10, 12, 1000} with max_distance 5 km, max_interval "
+    "10 s (|dt| = 10 s occurs and must be excluded). Datasets carry an id "
+    "variable and unique unsorted labels (7, 3, 11) on the point dimension. "
+    "base: every ordered pair of sequences (with repetition) of length 1..2 "
+    "over the alphabet (quick: over 9 of the 15 points), default "
+    "configuration, numpy.random.shuffle replaced by each member of "
+    "{identity, reversal, transpositions (0 i)} (quick: reversal). three "
+    "(thorough): every pair of sequences of length 1..3 over 5 points with a "
+    "3-sequence on at least one side x the 3 family members. dev1: every "
+    "single deviation from the default configuration - time itself as the "
+    "dimension of the primary / of the secondary, the time of the primary / "
+    "of the secondary stored as datetime64[us], [ms] or [s] instead of [ns] "
+    "([s]: points on whole seconds), thresholds as unit strings / timedelta "
+    "/ 10.5 s, eight start/end windows (between points, closed on points, "
+    "excluding everything, start only, end only; datetime or "
+    "pandas.Timestamp objects, 'YYYY-MM-DD hh:mm:ss' or date-only strings), "
+    "primary and secondary swapped, the datasets passed as (name, dataset) "
+    "tuples, leaf_size 1, magnitude_factor 1, bin_factor 2 and 0.5 - on all "
+    "pairs of sequences of length 1..2 over 8 points (quick: length 1 over "
+    "all 15 points, plus the identity shuffle); dev2 (thorough): every two "
+    "simultaneous deviations on sequences of length 1..2 over 4 points. "
+    "grid: grids made of two of 6 scan lines (quick 3) x 2 scan positions "
+    "with the time on the labelled scan-line dimension (kind G) against "
+    "every such grid x 5 family members and x 8 windows; the same pairs of "
+    "line sequences as 2 x 3 grids (H), as grids whose scan-line dimension "
+    "is the time itself (GT, lines with distinct seconds) and mixed (GT/H, "
+    "H/G); 2 x 3 grids against every 3 x 2 grid; 2 x 2 grids against "
+    "sequences in both roles. Every grid carries ang(scnpos) and bt(line, "
+    "scnpos, channel) whose values in the result must be those of the "
+    "point. wide: max_distance 2000 km (2000, '2000 km', '2e6 m') on every "
+    "pair of sequences of length 1..2 over 4 points (thorough 5) including "
+    "two points 18.0 deg (chord 1995.5 km, arc 2003.7 km) and 18.1 deg from "
+    "the cluster. long: max_interval 48 h (172800, '48 h'; thorough also '2 "
+    "days', timedelta) and 36 h ('1.5 days'; thorough also '36 hours') on "
+    "every pair of "
+    "sequences of length 1..2 over 4 points (thorough 5) 0, 12, 36 and 48 h "
+    "apart. wide and long, thorough: also every single deviation on the "
+    "pairs of single points. " + c04_history.RULE + " " + c04_large.RULE +
+    " One evaluation = one collocate() call compared with the brute force; "
+    "all evaluations are distinct inputs by construction (history calls and "
+    "the direct searches after a binned one: distinct call prefixes). "
+    "Non-trivial = the brute force expects at least one pair.")
 ASSUMPTIONS = [
     "the Earth is the sphere of radius typhon.constants.earth_radius; "
-    "'straight-line distance' is the 3-D chord",
+    "'straight-line distance' is the 3-D chord for every max_distance (the "
+    "documented switch to the great-circle distance above tunnel_limit is "
+    "not what the statement says; tunnel_limit is never passed)",
     "times are whole seconds or quarter seconds; the stored interval has "
     "a resolution of one second: a value less than 1 s from |dt| is "
     "accepted, and it has to be the same value whichever of the two points "
     "is the primary",
+    "time is 1-dimensional (on the scan-line dimension of a grid), as the "
+    "docstring of collocate() demands; latitudes and longitudes are "
+    "float64 (float32 positions of a file resolve 0.5 m only)",
     "both max_distance and max_interval are given (spatial-only and "
     "temporal-only searches are other modes)",
     "datasets carry coordinates with unique labels on their point / grid "
     "dimensions; unlabelled dimensions are outside the domain",
+    "start / end are datetime objects (pandas.Timestamp included) or "
+    "strings, as documented; numpy.datetime64 is not tried",
     "no lattice distance lies within 1e-9 relative of max_distance "
     "(asserted for every case); distances are compared to 1e-6 relative + "
     "1 mm",
     "numpy.random.shuffle is the only randomness below collocate(); it is "
     "replaced by a fixed permutation family, not by all n! permutations "
     "(those are C06's subject)",
-    "at most 3 points (4 for grids) per side outside the large part; the "
-    "large part has 1000-1003 points per side",
+    "at most 3 points (6 for grids) per side outside the large part; the "
+    "large part has 1011-1013 points per side",
+    "a direct search after a binned one is tried for the cores of the large "
+    "part only; the BFS over histories consists of direct searches",
 ]
 
 PALL = "ABCDEFGHIJKLMNO"
@@ -77,6 +107,16 @@ PQUICK = "ABCDEFKMN"
 PDEV = "ABDFKMNO"
 P5 = "ABDKM"
 P4 = "ABDK"
+# parts with other thresholds: (alphabet quick, alphabet thorough, thresholds
+# quick, thresholds thorough)
+SPECIAL = {
+    "wide": ("AMPQ", "ABMPQ", ("wide-num", "wide-str", "wide-m"),
+             ("wide-num", "wide-str", "wide-m")),
+    "long": ("ARST", "ACRST", ("2days-num", "48h", "1.5days"),
+             ("2days-num", "2days-str", "48h", "2days-timedelta", "36h",
+              "1.5days")),
+}
+GRID_PAIRS = (("H", "H"), ("GT", "GT"), ("GT", "H"), ("H", "G"))
 
 
 def sequences(alphabet, maxlen):
@@ -85,8 +125,8 @@ def sequences(alphabet, maxlen):
             yield "".join(s)
 
 
-def grids(lines):
-    return ["".join(g) for g in itertools.product(lines, repeat=2)]
+def grids(lines, n=2):
+    return ["".join(g) for g in itertools.product(lines, repeat=n)]
 
 
 def with_(**changes):
@@ -95,12 +135,14 @@ def with_(**changes):
     return cfg
 
 
-def deviations(order):
-    """Configurations with exactly `order` deviations from the default."""
+def deviations(order, **fixed):
+    """Configurations with exactly `order` deviations from the default in
+    the dimensions that are not fixed."""
     dims = dict(model.ALTERNATIVES, kind1=["T"], kind2=["T"])
-    for names in itertools.combinations(sorted(dims), order):
-        for values in itertools.product(*(dims[n] for n in names)):
-            yield with_(**dict(zip(names, values)))
+    names = sorted(set(dims) - set(fixed))
+    for chosen in itertools.combinations(names, order):
+        for values in itertools.product(*(dims[n] for n in chosen)):
+            yield with_(**dict(zip(chosen, values)), **fixed)
 
 
 def shards(tier, seed):
@@ -109,17 +151,21 @@ def shards(tier, seed):
     out += [("dev1", tier, s) for s in sequences(PALL if quick else PDEV,
                                                   1 if quick else 2)]
     out += [("grid", tier, g) for g in grids("abc" if quick else "abcdef")]
+    for part, (aq, at, _, _) in SPECIAL.items():
+        out += [(part, tier, s) for s in sequences(aq if quick else at, 2)]
     if not quick:
         out += [("three", tier, s) for s in sequences(P5, 3)]
-        out += [("dev2", tier, s) for s in sequences(P4, 2)]
+        out += [("dev2", tier, pair)
+                for pair in itertools.product(sequences(P4, 2), repeat=2)]
     out += c04_history.shards(tier)
     out += c04_large.shards(tier)
     return out
 
 
 def cases(part, tier, first):
-    """(descriptor 1, descriptor 2, configuration) of one shard; the
-    descriptors still lack the kind for the linear parts (cfg has it)."""
+    """(descriptor 1, descriptor 2, configuration) of one shard (dev2: one
+    shard per pair of descriptors); the descriptors still lack the kind for
+    the linear parts (cfg has it)."""
     quick = tier == "quick"
     if part == "base":
         for second in sequences(PQUICK if quick else PALL, 2):
@@ -138,9 +184,8 @@ def cases(part, tier, first):
             if quick:
                 yield first, second, with_(shuffle="id")
     elif part == "dev2":
-        for second in sequences(P4, 2):
-            for cfg in deviations(2):
-                yield first, second, cfg
+        for cfg in deviations(2):
+            yield first + (cfg,)
     elif part == "grid":
         lines = "abc" if quick else "abcdef"
         for second in grids(lines):
@@ -150,35 +195,51 @@ def cases(part, tier, first):
             for window in model.ALTERNATIVES["window"]:
                 yield first, second, with_(kind1="G", kind2="G",
                                            window=window)
+            for kind1, kind2 in GRID_PAIRS:
+                yield first, second, with_(kind1=kind1, kind2=kind2)
+        # two lines of three positions against three lines of two positions
+        for second in grids(lines, 3):
+            yield first, second, with_(kind1="H", kind2="G")
         for second in sequences(PALL if quick else PDEV, 1 if quick else 2):
             for member in ("rev", "id"):
                 yield first, second, with_(kind1="G", shuffle=member)
                 yield second, first, with_(kind2="G", shuffle=member)
+    else:
+        aq, at, tq, tt = SPECIAL[part]
+        for second in sequences(aq if quick else at, 2):
+            for thr in (tq if quick else tt):
+                yield first, second, with_(thr=thr)
+                if not quick and len(first) == len(second) == 1:
+                    yield from ((first, second, cfg)
+                                for cfg in deviations(1, thr=thr))
 
 
 def evaluate(spec1, spec2, cfg):
     """-> (skipped, non-trivial, None or (key, expected, observed, msg))"""
     from typhon.collocations import Collocator
     d1, d2 = (cfg["kind1"], spec1), (cfg["kind2"], spec2)
-    if not (model.admissible(d1) and model.admissible(d2)):
+    if not (model.admissible(d1, cfg["unit1"])
+            and model.admissible(d2, cfg["unit2"])):
         return True, False, None
-    ds1, pts1 = model.build(d1, 100, "obs")
-    ds2, pts2 = model.build(d2, 200, "spot")
+    ds1, pts1, extras1 = model.build(d1, 100, "obs", cfg["unit1"])
+    ds2, pts2, extras2 = model.build(d2, 200, "spot", cfg["unit2"])
+    names, extras = model.group_names(cfg), (extras1, extras2)
     _, _, metres, seconds = model.THRESHOLDS[cfg["thr"]]
     exp = model.expected(pts1, pts2, metres, seconds,
                          model.WINDOWS[cfg["window"]][:2])
     if cfg["swap"]:
         ds1, ds2, pts1, pts2 = ds2, ds1, pts2, pts1
+        extras = extras[::-1]
         exp = {(j, i): v for (i, j), v in exp.items()}
     obs = model.call(Collocator(), ds1, ds2, cfg)
-    bad = model.judge(obs, pts1, pts2, exp)
+    bad = model.judge(obs, pts1, pts2, exp, names, extras)
     if bad is None and any(v[0] != int(v[0]) for v in exp.values()):
         # |dt| is not a whole number of seconds: whatever way the stored
         # value is brought to whole seconds, |dt| of a pair does not depend
         # on which of its points is the primary
         back = model.intervals_by_pair(
-            model.call(Collocator(), ds2, ds1, cfg), transposed=True)
-        here = model.intervals_by_pair(obs)
+            model.call(Collocator(), ds2, ds1, cfg), names, transposed=True)
+        here = model.intervals_by_pair(obs, names)
         differ = sorted(k for k in here if k in back and here[k] != back[k])
         if differ:
             bad = ("interval/changes-when-primary-and-secondary-are-swapped",
@@ -187,7 +248,7 @@ def evaluate(spec1, spec2, cfg):
     other = model.SAME_THRESHOLDS.get(cfg["thr"])
     if bad is not None and other and model.judge(
             model.call(Collocator(), ds1, ds2, dict(cfg, thr=other)),
-            pts1, pts2, exp) is None:
+            pts1, pts2, exp, names, extras) is None:
         bad = ("thresholds/%s-differs-from-%s" % (cfg["thr"], other),
                bad[1], bad[2], (bad[0] + " " + bad[3]).strip())
     return False, bool(exp), bad
@@ -228,7 +289,9 @@ def replay(case):
     if case["part"] == "large":
         return c04_large.replay(case)
     model.install_seam()
-    _, _, bad = evaluate(case["primary"], case["secondary"], case["cfg"])
+    # (cases recorded before a configuration dimension existed lack its key)
+    _, _, bad = evaluate(case["primary"], case["secondary"],
+                         with_(**case["cfg"]))
     if bad is None:
         return dict(ok=True)
     return dict(ok=False, key=bad[0], expected=bad[1], observed=bad[2],
